@@ -1,6 +1,6 @@
 (* C13 - redefining the objective on the fly acts as a restart on the new objective.
    Restates Proofs/DriverInert.ident_run, Proofs/DriverFilter.filter_spec and accept_step_upd_shape. *)
-From LBFGSB Require Generated.FilterGen Generated.BfgsMem Generated.LoopControl.
+From LBFGSB Require Generated.FilterGen Generated.BfgsMem Generated.RebuildRule.
 From Coq Require Import List ZArith Bool String Lia Floats.PrimFloat.
 From LBFGSB Require Import Base.Res Base.Sim Model.SF Model.FloatVec Model.Driver Generated.Memory Generated.StopTests
   Proofs.DriverMemory Proofs.DriverInert Proofs.DriverFilter Proofs.DriverShape Proofs.DriverUpdateRestart.
@@ -110,17 +110,17 @@ Qed.
 
 (* TRANSLATION TIE for the rebuild rule on which (4) rests: the `is_force_update` argument of the two calls of
    update_lbfgs_matrices and the test of the reset `mats = LBFGSB_MATRICES(n)`, translated from main.py on every run
-   (Generated/LoopControl.v), are the booleans of the model's accept_step / first_state; the pinned tree (is_force_update=False)
+   (Generated/RebuildRule.v), are the booleans of the model's accept_step / first_state; the pinned tree (is_force_update=False)
    and seeded variants that drop the rebuild do not give these terms. *)
 Theorem C13_rebuild_rule_from_source : forall (filt : bool) (X : list vec),
-  LoopControl.force_update filt X = (filt && (1 <? List.length X)%nat) /\
-  LoopControl.reset_matrices filt X = (filt && (List.length X =? 1)%nat) /\
-  LoopControl.force_update_at_start X = (1 <? List.length X)%nat.
+  RebuildRule.force_update filt X = (filt && (1 <? List.length X)%nat) /\
+  RebuildRule.reset_matrices filt X = (filt && (List.length X =? 1)%nat) /\
+  RebuildRule.force_update_at_start X = (1 <? List.length X)%nat.
 Proof. intros. repeat split; reflexivity. Qed.
 Theorem C13_rebuild_rule_in_model : forall U K c u ft s a d t1 s1 tr, u_upd U = Some u ->
   accept_step U K c ft s a d t1 = (Ok (true, s1), tr) ->
   exists g1 X1 G2, (s_X s1, s_G s1, s_mats s1) =
-    update_mem_f K c (LoopControl.force_update true X1) (s_x s1) g1 X1 G2 (if LoopControl.reset_matrices true X1 then None else s_mats s).
+    update_mem_f K c (RebuildRule.force_update true X1) (s_x s1) g1 X1 G2 (if RebuildRule.reset_matrices true X1 then None else s_mats s).
 Proof.
   intros U K c u ft s a d t1 s1 tr Hu H.
   destruct (accept_step_upd_shape U K c u ft s a d t1 true s1 tr Hu H) as (f0 & g & f1 & fo & g1 & G1 & X1 & G2 & _ & _ & _ & _ & [[Hc _]|[_ Hs]]); [discriminate|].
